@@ -8,8 +8,8 @@ SPEC_PART = dict(
              "into Gen/GenBitPack.v on every run and a symbolic evaluator, proved sound once, checks each against the bit-stream "
              "specification for all inputs"],
     assumptions=["compact sketches with fewer than 2^32 entries (the count field is a u32)",
-                 "theta0 in [1, 2^63-1] for the reachability theorem, i.e. sampling probability in [2^-63, 1] (below 2^-63 the "
-                 "crate's starting theta is 0: see the theta report)"],
+                 "theta0 <= 2^63-1 for the reachability theorem (what the crate's float expression yields for every sampling "
+                 "probability in (0, 1]; not proved, it is a fact about binary64 multiplication by 2^63)"],
     covers="theta: deserialize(serialize(c)) = Ok c and deserialize(serialize_compressed(c)) = Ok c (equality of the whole compact "
            "sketch: entries in order, theta, seed hash, ordered, empty) for every well-formed c, every entry count incl. every "
            "length mod 8 and every delta width 1..63; compact(ordered) of every reachable ThetaSketch is well-formed; bit-pack "
